@@ -98,11 +98,11 @@ def expected(case, world):
     return out
 
 
-def run(case, world, caching, times=1):
+def run(case, world, caching, times=1, perm=None):
     from entity_query_language import symbolic_mode, an, set_of, and_, for_all
     from entity_query_language.cache_data import enable_caching, disable_caching
     m = H.labels_of(world)
-    doms = H.domains(world, case["kinds"])
+    doms = H.domains(world, case["kinds"], perm)
     (enable_caching if caching else disable_caching)()
     try:
         with symbolic_mode():
